@@ -58,17 +58,25 @@ class BlockedChild:
         self.pid = pid
         self.mark = None
 
+    CPU_CAP_TICKS = 400 * os.sysconf("SC_CLK_TCK")  # > 10x the most expensive child of the workload
+
     def check(self, stdin_done: bool, progress: int):
+        ticks = _cpu_ticks(self.pid)
+        if ticks is not None and ticks > self.CPU_CAP_TICKS:
+            raise ChildBlocked()  # burns CPU without end (e.g. retrying a failed write for ever)
         if not stdin_done:
             self.mark = None
             return
         now = time.time()
-        state = (_cpu_ticks(self.pid), progress)
-        if self.mark is None or state != self.mark[1]:
-            self.mark = (now, state)
+        if self.mark is None or progress != self.mark[2]:
+            self.mark = (now, ticks, progress)
             return
-        if state[0] is not None and now - self.mark[0] > 30.0:
-            raise ChildBlocked()
+        if ticks is not None and self.mark[1] is not None and now - self.mark[0] > 40.0:
+            # no output byte for 40 s; a child that computes uses about one core, a child that is stuck - blocked,
+            # or sleeping between hopeless retries - uses (almost) none
+            if ticks - self.mark[1] < 0.1 * (now - self.mark[0]) * os.sysconf("SC_CLK_TCK"):
+                raise ChildBlocked()
+            self.mark = (now, ticks, progress)
 
 
 # ------------------------------------------------------------------------------------------
@@ -368,7 +376,7 @@ def judge(run: dict, exp: dict, ref: dict | None, res: dict) -> tuple[str, str]:
 
     fault = run.get("fault")
     if res.get("blocked"):
-        return "violation:does-not-terminate", "stdin delivered and closed, outputs drained, no CPU use for 30 s, still alive"
+        return "violation:does-not-terminate", "stdin delivered and closed, no output byte for 40 s while using < 10 % of a core, or more than 400 CPU seconds used; still alive"
     if res.get("timeout"):
         return "harness-timeout", ""
     out = res["out"]
